@@ -123,7 +123,7 @@ def main(argv=None):
 
     t0 = time.time()
     n = args.n or plan['n']
-    budget = args.budget if args.budget is not None else plan.get('budget_s')
+    budget = args.budget if args.budget is not None else float(os.environ.get('VERIF_BUDGET_S') or plan.get('budget_s'))
     print(f'[{prop}] tier={tier} seed={seed} runs={n} workers={workers} repo={sim.repo_path()}', flush=True)
     _CTX.update(mod=mod, seed=seed, tier=tier, keep=4)
 
